@@ -385,6 +385,7 @@ func checkC13(c *Ctx, r *Report) {
 	drainChannelCaptured(c, r, "C13.R1.drain-channel-captured")
 	onceUnlockOnly(c, r, "C13.R2.once-unlock-only")
 	round12(c, r, "C13")
+	round13(c, r, "C13")
 }
 
 func fnDisplay(f *ssa.Function) string {
